@@ -2,6 +2,7 @@ import IxpeVerif.Num
 import IxpeVerif.Model.Livetime
 import IxpeVerif.Model.EventList
 import IxpeVerif.Gen.Formulas
+import IxpeVerif.Model.Gti
 /-! Dispatcher of the hand-written models for the line-protocol driver.  Integers travel in decimal. -/
 namespace Driver
 
@@ -22,6 +23,12 @@ def rowsOfF (hx hy : Float) : List Int → List EvL.Row
   | t :: s :: x :: y :: g :: rest =>
     ⟨t, s, decide (Gen.within_fiducial_rectangle (fbits x) (fbits y) hx hy > 0.5), g.toNat⟩ :: rowsOfF hx hy rest
   | _ => []
+
+def pairsOf : List Int → List (Int × Int)
+  | a :: b :: rest => (a, b) :: pairsOf rest
+  | _ => []
+
+def unpairs (l : List (Int × Int)) : List Int := l.flatMap fun g => [g.1, g.2]
 
 def rowsOf : List Int → List EvL.Row
   | t :: s :: f :: g :: rest => ⟨t, s, f != 0, g.toNat⟩ :: rowsOf rest
@@ -49,6 +56,29 @@ def step (ws : List String) : String :=
       let out := EvL.finalize s0.toInt! dead.toInt! (ints starts) (rowsOfF (fbits hx.toInt!) (fbits hy.toInt!) (ints rows))
       showInts (out.flatMap fun o => [(o.row.tag : Int), o.livetime, (o.trg : Int)])
     | _ => "bad-op"
+  -- gtifilter <2n> (start stop)… <m> times…   -> mask bits
+  | "gtifilter" :: rest =>
+    let (g, rest) := takeN rest
+    let (ts, _) := takeN rest
+    showInts ((Gti.filterTimes (pairsOf (ints g)) (ints ts)).2.map fun b => if b then 1 else 0)
+  -- complement <2n> (start stop)…   -> flat list of the gaps, then total good time
+  | "complement" :: rest =>
+    let (g, _) := takeN rest
+    let gs := pairsOf (ints g)
+    showInts (Gti.total gs :: unpairs (Gti.complement gs))
+  -- timeline <minDur> <padA> <padB> <n> mets… <k> saa… <l> occ…  -> ng gti… | octi…
+  | "timeline" :: md :: pa :: pb :: rest =>
+    let (m, rest) := takeN rest
+    let (sa, rest) := takeN rest
+    let (oc, _) := takeN rest
+    let eps := Gti.calcEpochs (ints sa) (ints oc) (ints m)
+    let g := Gti.gtiList md.toInt! pa.toInt! pb.toInt! eps
+    let o := Gti.octiList md.toInt! pa.toInt! pb.toInt! eps
+    showInts ([(g.length : Int)] ++ unpairs g ++ unpairs o ++ [(eps.length : Int)] ++ eps.flatMap fun e => [if e.saa then 1 else 0, if e.occ then 1 else 0])
+  -- bingti <emin> <emax> <2n> (start stop)…
+  | "bingti" :: a :: b :: rest =>
+    let (g, _) := takeN rest
+    showInts [Gti.binGti a.toInt! b.toInt! (pairsOf (ints g))]
   | ["split", t] => let r := EvL.splitTime t.toInt!; showInts [r.1, r.2]
   | _ => "bad-op"
 
